@@ -48,7 +48,8 @@ def fac(c):
     S = c.get("scale", 1); return 16 * S * S * (S * S if c["kind"] == "khc2" else 1)
 
 def dline(c, tree=None):
-    s = "D %s %d %d %d %s" % (c["kind"] + ("/%d" % c["scale"] if c.get("scale", 1) != 1 else ""), c["bucket"], c["dim"], len(c["pts"]), " ".join(str(x) for p in c["pts"] for x in p))
+    # a depth limit d (with the default bucket size) is written as bucket field -d
+    s = "D %s %d %d %d %s" % (c["kind"] + ("/%d" % c["scale"] if c.get("scale", 1) != 1 else ""), c["bucket"] if not c.get("depth") else -c["depth"], c["dim"], len(c["pts"]), " ".join(str(x) for p in c["pts"] for x in p))
     return s + (" | tree=" + tree if tree else "")
 
 def case_lines(c, tree=None):
@@ -57,7 +58,7 @@ def case_lines(c, tree=None):
 def parse_case(lines):
     hd = lines[0].split("|")[0].split()
     dim, n = int(hd[3]), int(hd[4]); cs = list(map(int, hd[5:5 + dim * n]))
-    return {"kind": hd[1].split("/")[0], "scale": int(hd[1].split("/")[1]) if "/" in hd[1] else 1, "bucket": int(hd[2]), "dim": dim, "pts": [cs[i * dim:(i + 1) * dim] for i in range(n)], "body": [l for l in lines[1:]]}
+    return {"kind": hd[1].split("/")[0], "scale": int(hd[1].split("/")[1]) if "/" in hd[1] else 1, "bucket": max(int(hd[2]), 0), "depth": max(-int(hd[2]), 0), "dim": dim, "pts": [cs[i * dim:(i + 1) * dim] for i in range(n)], "body": [l for l in lines[1:]]}
 
 def parse_tree(s):
     def go(i):
@@ -446,6 +447,13 @@ def main():
                 #  de-duplicated; now duplicates, collinear points and points on the cutting hyper-surface stay in)
                 b = bucket if bucket == 0 else rng.choice([b for b in (2, 3, 4, 8) if b < len(pts)] or [0])
                 fresh.append(({"kind": kind.replace("P", ""), "bucket": b, "dim": dim, "pts": pts, "body": []}, nq, kind.endswith("P")))
+                # the same kind of tree built with a DEPTH limit (TreeConstruction(d, 0), d below and above the natural depth): the
+                # property quantifies over depth limits; whatever the construction does with the limit, queries must stay exact
+                if b == 0 and not kind.endswith("P") and rng.random() < 0.5:
+                    dim2, pts2 = gen_points(rng, big)
+                    while len(set(map(tuple, pts2))) < 2: dim2, pts2 = gen_points(rng, big)
+                    if kind == "khc2": pts2 = [[max(-6, min(6, x)) for x in p] for p in pts2]
+                    fresh.append(({"kind": kind, "bucket": 0, "depth": rng.choice([1, 1, 2, 3, 5, 40]), "dim": dim2, "pts": pts2, "body": []}, nq, False))
         for kind in ("lc", "khc", "khc2"):                                             # duplicate points in LC / KHC trees
             for _ in range(2):
                 pts = [[rng.randint(-4, 4) for _ in range(2)] for _ in range(rng.randint(2, 6))]
